@@ -65,6 +65,16 @@ func LockEvents(evs []hk.Event) map[int][]map[string]interface{} {
 			out[e.Conn] = append(out[e.Conn], map[string]interface{}{"e": "swap", "site": "swap"})
 		}
 	}
+	// a section that began before this runtime was installed (a goroutine of the previous scenario's
+	// connection still finishing) shows up as an `end` with no `begin`: the trace of a connection starts
+	// at its first `begin` (or swap)
+	for conn, les := range out {
+		i := 0
+		for i < len(les) && les[i]["e"] == "end" {
+			i++
+		}
+		out[conn] = les[i:]
+	}
 	return out
 }
 
@@ -210,9 +220,9 @@ func Run(d *fw.Driver, res *fw.Result, seed int64, thorough bool) error {
 			return err
 		}
 	}
-	rounds := 3
+	rounds := 6
 	if thorough {
-		rounds = 20
+		rounds = 30
 	}
 	for round := 0; round < rounds && !res.Enough(); round++ {
 		if err := one(d, res, seed+int64(round)*101, round, thorough); err != nil {
